@@ -272,7 +272,64 @@ func (g *cgGraph) chain() {
 // grow the pool by one derived expression; returns false when nothing applied
 func (g *cgGraph) derive() bool {
 	e := g.pool[g.r.Intn(len(g.pool))]
-	switch g.r.Intn(12) {
+	isG := func(t *cgTy, h string) bool { return t.v == "" && t.head == h && len(t.args) == 0 }
+	switch g.r.Intn(19) {
+	case 12: // arithmetic / concatenation / comparison with a typed (literal) operand
+		switch {
+		case isG(e.ground, "int") && g.r.Intn(2) == 0:
+			g.add(&cgExpr{fo: "(" + e.fo + " + 1)", ty: cgCon("int"), ground: cgCon("int"), eqs: cgJoin(e.eqs, [][2]*cgTy{{e.ty, cgCon("int")}})}, e)
+		case isG(e.ground, "int"):
+			g.add(&cgExpr{fo: "(" + e.fo + " < 3)", ty: cgCon("bool"), ground: cgCon("bool"), eqs: cgJoin(e.eqs, [][2]*cgTy{{e.ty, cgCon("int")}})}, e)
+		case isG(e.ground, "string"):
+			g.add(&cgExpr{fo: "(" + e.fo + " + \"z\")", ty: cgCon("string"), ground: cgCon("string"), eqs: cgJoin(e.eqs, [][2]*cgTy{{e.ty, cgCon("string")}})}, e)
+		default:
+			return false
+		}
+	case 13: // union construction (generic union)
+		g.add(&cgExpr{fo: "(Som " + e.fo + ")", ty: cgCon("Opt", e.ty), ground: cgCon("Opt", e.ground), eqs: e.eqs}, e)
+	case 14: // the payload-less case of the generic union: a fresh instance, pinned by what it meets
+		c := g.ofGround(cgCon("Opt", e.ground))
+		if len(c) == 0 || cgHasFunc(e.ground) {
+			return false
+		}
+		o := c[g.r.Intn(len(c))]
+		f := g.newVar()
+		g.add(&cgExpr{fo: "[(Non ()); " + o.fo + "]", ty: cgCon("[]", cgCon("Opt", f)), ground: cgCon("[]", cgCon("Opt", e.ground)), eqs: cgJoin(o.eqs, [][2]*cgTy{{cgCon("Opt", f), o.ty}})}, o)
+	case 15: // calls of user functions: annotated (idInt, tagStr) and generic, inferred (dup, pick):
+		// every use of a generic function is instantiated on its own
+		switch g.r.Intn(4) {
+		case 0:
+			if !isG(e.ground, "int") {
+				return false
+			}
+			g.add(&cgExpr{fo: "(idInt " + e.fo + ")", ty: cgCon("int"), ground: cgCon("int"), eqs: cgJoin(e.eqs, [][2]*cgTy{{e.ty, cgCon("int")}})}, e)
+		case 1:
+			if !isG(e.ground, "string") {
+				return false
+			}
+			g.add(&cgExpr{fo: "(tagStr 1 " + e.fo + ")", ty: cgCon("*", cgCon("int"), cgCon("string")), ground: cgCon("*", cgCon("int"), cgCon("string")), eqs: cgJoin(e.eqs, [][2]*cgTy{{e.ty, cgCon("string")}})}, e)
+		case 2:
+			g.add(&cgExpr{fo: "(dup " + e.fo + ")", ty: cgCon("*", e.ty, e.ty), ground: cgCon("*", e.ground, e.ground), eqs: e.eqs}, e)
+		default:
+			c := g.ofGround(e.ground)
+			o := c[g.r.Intn(len(c))]
+			if (o == e && e.once) || cgHasFunc(e.ground) {
+				return false
+			}
+			g.add(&cgExpr{fo: "(pick true " + e.fo + " " + o.fo + ")", ty: e.ty, ground: e.ground, eqs: cgJoin(e.eqs, o.eqs, [][2]*cgTy{{e.ty, o.ty}})}, e, o)
+		}
+	case 16, 17, 18: // if / else as an expression: the branches have one type, the condition is bool
+		cs := g.ofGround(cgCon("bool"))
+		c := g.ofGround(e.ground)
+		if len(cs) == 0 || cgHasFunc(e.ground) {
+			return false
+		}
+		cd, o := cs[g.r.Intn(len(cs))], c[g.r.Intn(len(c))]
+		if cd == e || cd == o || (o == e && e.once) {
+			return false
+		}
+		g.add(&cgExpr{fo: "(if " + cd.fo + " then " + e.fo + " else " + o.fo + ")", ty: e.ty, ground: e.ground,
+			eqs: cgJoin(cd.eqs, e.eqs, o.eqs, [][2]*cgTy{{cd.ty, cgCon("bool")}, {e.ty, o.ty}})}, cd, e, o)
 	case 10, 11: // record literal of a generic record with two type parameters
 		o := g.pool[g.r.Intn(len(g.pool))]
 		if o == e && e.once {
@@ -376,7 +433,7 @@ func c02GraphGen(r *rand.Rand, name string) (fo string, oracleIn string, nparams
 	}
 	// literals join the pool so that ground-int parameters can be pinned (or not)
 	g.pool = append(g.pool, &cgExpr{fo: "1", ty: cgCon("int"), ground: cgCon("int")}, &cgExpr{fo: "\"s\"", ty: cgCon("string"), ground: cgCon("string")}, &cgExpr{fo: "true", ty: cgCon("bool"), ground: cgCon("bool")})
-	for i := r.Intn(12); i > 0; i-- {
+	for i := r.Intn(16); i > 0; i-- {
 		g.derive()
 	}
 	var conj []string
@@ -438,6 +495,9 @@ func c02GoTy(e ast.Expr) string {
 			return vsx(parts...)
 		}
 	case *ast.IndexExpr:
+		if id, ok := x.X.(*ast.Ident); ok {
+			return vsx("c", id.Name, c02GoTy(x.Index))
+		}
 		if se, ok := x.X.(*ast.SelectorExpr); ok && strings.HasPrefix(se.Sel.Name, "Tuple") {
 			return vsx("c", "*", c02GoTy(x.Index))
 		}
@@ -510,7 +570,7 @@ func vC02Graph(seed int64, count int, extra []string) {
 		r := rand.New(rand.NewSource(seed*7919 + int64(i)))
 		name := fmt.Sprintf("g%d", i)
 		body, oin, np := c02GraphGen(r, name)
-		src := "package main\n\nimport frt\nimport slice\n\ntype Pr<A, B> = {PA: A; PB: B}\n\n" + body
+		src := "package main\n\nimport frt\nimport slice\n\ntype Pr<A, B> = {PA: A; PB: B}\n\ntype Opt<T> =\n  | Som of T\n  | Non\n\nlet idInt (a:int) =\n  a\n\nlet tagStr (n:int) (s:string) =\n  (n, s)\n\nlet dup x =\n  (x, x)\n\nlet pick (c:bool) a b =\n  if c then a else b\n\n" + body
 		goSrc, err := vTranspilePkg(src)
 		vstat("graphs")
 		vstat("params." + strconv.Itoa(np))
